@@ -71,7 +71,9 @@ S.update({
  "text.indexOf": sweept("[s.indexOf(s.charAt(b < 0 ? 0 : b), a), s.lastIndexOf(s.charAt(b < 0 ? 0 : b), a), s.indexOf('', a), s.lastIndexOf('', a)]"),
  "text.includes": sweept("[s.includes(s.charAt(b < 0 ? 0 : b) || 'q', a), s.startsWith(s.slice(b, b + 2), a), s.endsWith(s.slice(b, b + 2), a)]"),
  "text.pad": sweept("[s.padStart(a, s), s.padEnd(a, 'é日'), s.repeat(a > 0 && a < 4 ? a : 0).length]"),
- "text.regexp": sweept("(() => { const ch = s.charAt(b < 0 ? 0 : b) || 'x'; const r = new RegExp(ch.replace(/[.*+?^${}()|[\\]\\\\]/g, '\\\\$&'), 'g'); r.lastIndex = a < 0 ? 0 : (a || 0); "
-                       "const m = r.exec(s); return [m && m.index, r.lastIndex, s.search(r), (s.match(new RegExp(ch, '')) || {}).index, "
-                       "[...s.matchAll(r)].map(x => x.index).join(), s.replace(r, (x, off) => '<' + off + '>'), s.replace(ch, (x, off) => '[' + off + ']'), s.split(ch).length]; })()"),
+ "text.regexp": sweept("(() => { const ch = s.charAt(b < 0 ? 0 : b) || 'x'; const esc = ch.replace(/[.*+?^${}()|[\\]\\\\]/g, '\\\\$&'); const r = new RegExp(esc, 'g'); r.lastIndex = a < 0 ? 0 : (a || 0); "
+                       "const m = r.exec(s); const first = [m && m.index, r.lastIndex]; const all = []; const q = new RegExp(esc + '+', 'g'); let k; while ((k = q.exec(s)) !== null && all.length < 9) all.push(k.index + '-' + q.lastIndex); "
+                       "const t = new RegExp(esc, 'g'); let n = 0; while (t.test(s) && n < 20) n++; const y = new RegExp(esc, 'y'); y.lastIndex = a < 0 ? 0 : (a || 0); const ym = y.exec(s); "
+                       "return [first, all.join(), n, t.lastIndex, ym && ym.index, y.lastIndex, s.search(new RegExp(esc)), (s.match(new RegExp(esc)) || {}).index, "
+                       "[...s.matchAll(new RegExp(esc, 'g'))].map(x => x.index).join(), s.replace(new RegExp(esc, 'g'), (x, off) => '<' + off + '>'), s.replace(ch, (x, off) => '[' + off + ']'), s.split(ch).length]; })()"),
 })
